@@ -259,6 +259,9 @@ class QueueProxy(object):
     def __len__(self):
         return len(self.d)
 
+    def __getitem__(self, i):
+        return self.d[i]
+
     def __bool__(self):
         return bool(self.d)
 
